@@ -19,7 +19,7 @@ LinkEdits == {"name", "mat_path", "prod_path", "mat_digest", "prod_digest", "mat
               "env_fold", "byp_fold", "command_fold", "paths_fold"}
 \* expires_plus_year / _day: applied by the harness at every date class (mid-year, 29 Dec .. 3 Jan of
 \* several years, leap day, month ends) - "expiry to the second" must hold at every calendar position
-LayoutEdits == {"readme", "expires_plus1", "expires_minus1", "expires_plus_year", "expires_plus_day", "step_name", "step_threshold", "step_threshold_zero",
+LayoutEdits == {"readme", "expires_plus1", "expires_minus1", "expires_plus_year", "expires_plus_day", "pubkeys_case", "step_name", "step_threshold", "step_threshold_zero",
                 "pubkeys_add", "pubkeys_remove", "pubkeys_swap", "step_command", "rule_keyword", "rule_pattern",
                 "rule_add", "rule_remove", "rule_swap", "match_src", "match_dst", "match_drop_src", "match_with",
                 "match_from", "insp_name", "insp_run", "insp_rule", "keys_add", "keys_remove", "steps_swap",
